@@ -6,7 +6,6 @@ import (
 	"fmt"
 	"math/rand"
 	"runtime"
-	"runtime/pprof"
 	"strings"
 	"sync"
 	"sync/atomic"
@@ -85,12 +84,8 @@ func c14Child(in json.RawMessage) (interface{}, error) {
 		defer close(done)
 		c14Workload(&cs, res)
 	}()
-	select {
-	case <-done:
-	case <-time.After(45 * time.Second):
-		var sb strings.Builder
-		_ = pprof.Lookup("goroutine").WriteTo(&sb, 1)
-		res.NoProgress = sb.String()
+	if dl := awaitWorkload(done, 45*time.Second, "checks.c14Workload"); dl != "" {
+		return &c14Result{BatchErrs: map[int]string{}, NoProgress: dl}, nil
 	}
 	return res, nil
 }
@@ -255,10 +250,24 @@ func c14Workload(cs *c14Case, res *c14Result) {
 	err = w.Batch(rb)
 	atomic.AddInt64(&applied, 1)
 	if cs.Unsafe && err == nil {
-		select {
-		case err = <-ackCh:
-		case <-time.After(20 * time.Second):
-			err = fmt.Errorf("persisted-callback of the final batch not invoked within 20 s after the fault cleared")
+		// no wall-clock verdict: the call-back is missing only if the persister has caught up with the root
+		// (nothing is left to persist) and it still has not run; a persister that is merely slow is waited
+		// for, one that never catches up is ended by the runner's watchdog
+		for waiting := true; waiting; {
+			select {
+			case err = <-ackCh:
+				waiting = false
+			case <-time.After(20 * time.Second):
+				st := w.VerifIndexWriter().Stats()
+				if st.LastPersistedEpoch >= st.CurRootEpoch {
+					select {
+					case err = <-ackCh:
+					case <-time.After(15 * time.Second): // (the statistic is updated a few statements before the call-backs run)
+						err = fmt.Errorf("persisted-callback of the final batch not invoked after the fault cleared, although the persister has caught up with the root (epoch %d)", st.CurRootEpoch)
+					}
+					waiting = false
+				}
+			}
 		}
 	} else if err == nil {
 		rdir.Mark("ack", n)
